@@ -309,6 +309,10 @@ class DefaultDataManager(DataManager):
         self, src_location: DataLocation, dst_location: DataLocation
     ) -> None:
         for data_location in self.path_mapper.get(path=src_location.path):
+            # An invalidated location must not be linked again: it would mark its
+            # path as valid in the tree and block a later re-registration
+            if DataType.INVALID in (data_location.data_type, dst_location.data_type):
+                continue
             self.path_mapper.put(data_location.path, dst_location)
             self.path_mapper.put(dst_location.path, data_location)
 
